@@ -16,6 +16,17 @@ var textUnmarshaler = reflect.TypeOf((*encoding.TextUnmarshaler)(nil)).Elem()
 // Pointerify takes a type and returns another type with all its members
 // set to pointers of their respective types
 func Pointerify(original reflect.Type, tmpl reflect.Value) reflect.Type {
+	return pointerify(original, tmpl, map[ifacePtrKey]struct{}{})
+}
+
+// ifacePtrKey identifies a pointer found in an interface value of the
+// template while its pointee is being pointerified.
+type ifacePtrKey struct {
+	ptr uintptr
+	typ reflect.Type
+}
+
+func pointerify(original reflect.Type, tmpl reflect.Value, visiting map[ifacePtrKey]struct{}) reflect.Type {
 	newFields := make([]reflect.StructField, 0, original.NumField())
 
 	for i := 0; i < original.NumField(); i++ {
@@ -29,7 +40,7 @@ func Pointerify(original reflect.Type, tmpl reflect.Value) reflect.Type {
 			continue
 		}
 
-		sf := pointerifyField(originalField, tmplFieldVal)
+		sf := pointerifyField(originalField, tmplFieldVal, visiting)
 		if sf != nil {
 			newFields = append(newFields, *sf)
 		}
@@ -58,7 +69,7 @@ func OmitField(sf reflect.StructField) bool {
 
 }
 
-func pointerifyField(originalField reflect.StructField, tmplFieldVal reflect.Value) *reflect.StructField {
+func pointerifyField(originalField reflect.StructField, tmplFieldVal reflect.Value, visiting map[ifacePtrKey]struct{}) *reflect.StructField {
 	ft := originalField.Type
 	sf := reflect.StructField{
 		Name:      originalField.Name,
@@ -98,9 +109,22 @@ func pointerifyField(originalField reflect.StructField, tmplFieldVal reflect.Val
 			// interface that Sources know about.
 			return &originalField
 		case reflect.Ptr, reflect.Struct:
+			if impl.Kind() == reflect.Ptr && !impl.IsNil() {
+				// The template's interface values may form a cycle
+				// (a value that reaches itself through an interface).
+				// Devirtualizing around such a cycle would never
+				// terminate, so leave the field as an interface when
+				// we're already inside this pointer's pointee.
+				key := ifacePtrKey{ptr: impl.Pointer(), typ: impl.Type()}
+				if _, inProgress := visiting[key]; inProgress {
+					return &originalField
+				}
+				visiting[key] = struct{}{}
+				defer delete(visiting, key)
+			}
 			newSF := originalField
 			newSF.Type = impl.Type()
-			return pointerifyField(newSF, impl)
+			return pointerifyField(newSF, impl, visiting)
 		}
 		return &originalField
 	case reflect.Ptr:
@@ -131,7 +155,7 @@ func pointerifyField(originalField reflect.StructField, tmplFieldVal reflect.Val
 		}
 		// It's a struct without an UnmarshalText method, we
 		// need to recursively pointerify the component fields.
-		pointeredStruct := Pointerify(ft, tmplFieldVal)
+		pointeredStruct := pointerify(ft, tmplFieldVal, visiting)
 		return &reflect.StructField{
 			Name:      originalField.Name,
 			Type:      reflect.PtrTo(pointeredStruct),
